@@ -26,9 +26,9 @@ for pid in ids:
 man = {
     'version': 1,
     'setup_cmd': './setup',
-    'hooks': {'guard': 'cteenergymodel_verif', 'enable': 'RUSTFLAGS="--cfg cteenergymodel_verif" (set by verif/build.py; no hook is currently needed: every observable is public API)',
+    'hooks': {'guard': 'cargo feature cteenergymodel_verif of crate bemodel', 'enable': 'harness/Cargo.toml depends on bemodel with features = ["cteenergymodel_verif"]; the feature only re-exports the BVHNode and Occluder types (no behaviour change)',
               'baseline_off_cmd': 'cd /repo && cargo test --workspace --no-fail-fast --offline',
-              'source_commits': [], 'add_only': True},
+              'source_commits': ['e477b1c'], 'add_only': True},
     'engines': [{'name': 'coq+vharness', 'path': 'check', 'serves_properties': [c['property_id'] for c in checks],
                  'kind_free_text': 'Coq 8.16 theorems about hand-written models (coq/theories) + correspondence: Rust harness runs the implementation, Coq evaluates the model on the same inputs and compares (vm_compute / interval certificates); translators regenerate coq/gen from /repo'}],
     'checks': checks,
